@@ -307,9 +307,8 @@ impl Decompressor {
         start: usize,
         end: usize,
     ) -> Result<Contig> {
-        if start >= end {
-            return Ok(Vec::new());
-        }
+        // (an empty range is answered after the name lookup below, so that an unknown sample
+        // or contig is an error for every range, not only for non-empty ones)
 
         // Load contig batches if needed
         if self
